@@ -474,6 +474,11 @@ func c11(c *core.Ctx) {
 	c.Clause("C11.6", "vote counts and candidate profiles of one fork do not leak into another: the account copy a block executes on has its own Votes and its own Profile (AccountData.Copy is deep for them; premise of C09.6, evaluated here as well)")
 	c.Run("copy-deep", func() { c09CopyDeep(c) })
 
+	c.Clause("C11.7", "the recorded deposit changes only with money that moved: a profile update copies the transaction's keys into the stored profile only when the key is neither the deposit amount nor the node id")
+	c.Run("deposit-key-fixed", func() { c11DepositKeyFixed(c) })
+	c.Clause("C11.8", "vote arithmetic reads the state of the branch being executed: in the executing packages the account as of the node's stable block (GetCanonicalAccount) is read only at the recorded asset pre-check — a balance delta of an unstable ancestor would be converted into votes twice")
+	c.Run("votes-from-block-state", func() { c11VotesFromBlockState(c) })
+
 	c.NotDecidedf("the tally equation itself is NOT decided: that a candidate's votes equal deposit/DepositExchangeRate + Σ balance(voter)/VoteExchangeRate over its voters (sums over runtime balances); D19 shows a reachable history where it fails")
 	c.NotDecidedf("clause 4 only says whether a negative count is prevented, not whether counts are right; clause 1 says the adjustment runs after every balance writer, not that its arithmetic (per-account floor division of old/new balance) matches the per-tx vote moves")
 	c.NotDecidedf("writes to the vote counter that bypass the accessor interface inside package account or types (decoders, Copy), and candidates' Top-list ranking (C10)")
